@@ -42,6 +42,7 @@ EXPLANATION = (
     "unreadable certificate. (F3) hops use the same function. TLS handshake bytes (SNI) are "
     "outside the property. "
     "(F4) = C03.T10 option wiring. (F5) = C03.T4: a match is reported only from comparing with the pin stored now."
+    ' (F6) GeminiClient keeps no per-call state: outside __init__ no method stores to or mutates an attribute of self (e.g. resets the TOFU store).'
 )
 
 
@@ -193,5 +194,8 @@ def run(chk: Check) -> None:
 
     chk.rule("F4", "verification before sending is switched off only by an explicit decision: every GeminiClient construction passes trust_on_first_use as the caller's own option, a literal, or the default (= C03.T10)")
     tofu_wiring(chk, "F4")
+    from .common import client_stateless
+
+    client_stateless(chk, "F6", "a later call on the same client runs with what an earlier call left behind - e.g. a TOFU store reset by close(), after which requests are sent without any verification")
     chk.trusted = ["CPython ast parser", "engine CFG / abstract evaluator", "asyncio calls connection_made before create_connection returns"]
     chk.assumptions = ["bytes of the TLS handshake itself (SNI, client certificate) are outside the property", "`nauyaca tofu trust` connects with TOFU disabled on purpose (explicit re-pin) and is outside the property"]
